@@ -233,15 +233,18 @@ def run_impl(lines: list[str]):
     """Execute a history on a fresh real builder; returns (completed op lines, records)."""
     im = Impl()
     out_lines, recs = [], []
+    im.src_lines = []            # the harness-side line behind every executed line (same length as the result)
     for ln in lines:
         if ln.startswith("trace "):
             for l2, rec in im.apply_trace(ln):
                 out_lines.append(l2)
                 recs.append(rec)
+                im.src_lines.append(l2)
             continue
         l2, rec = im.apply(ln)
         out_lines.append(l2)
         recs.append(rec)
+        im.src_lines.append(ln)
     # leave no context manager open
     while im.ctx:
         im.ctx.pop().__exit__(None, None, None)
